@@ -914,3 +914,79 @@ Definition decode (d : json * files) : option dstore :=
   | Some b => build (snd d) b
   | None => None
   end.
+
+(** * Saving repeatedly: the changed flags of stand-off members
+   (ChangeMarker in src/file.rs; mark_changed in the insert / remove callbacks of
+   src/annotationdataset.rs and in TextResource::set_filename; the flag is read and cleared in
+   Serialize for AnnotationDataSet / TextResource).
+   A stand-off file is written on save only when its owner is flagged as changed.  The flag
+   logic is modelled by its contract: an operation flags every stand-off member whose file
+   content it changes (the library flags on every insertion or removal of a key or data item,
+   which is at least that); saving writes the flagged files and clears the flags. *)
+Record fstate := mkfs { fs_dirty : list str; fs_disk : files }.
+
+Definition file_put (fs : files) (n : str) (c : fcontent) : files :=
+  (n, c) :: filter (fun p => negb (str_eqb (fst p) n)) fs.
+
+Fixpoint json_eqb (a b : json) {struct a} : bool :=
+  match a, b with
+  | JNull, JNull => true
+  | JBool x, JBool y => Bool.eqb x y
+  | JNum x, JNum y => str_eqb x y
+  | JStr x, JStr y => str_eqb x y
+  | JArr x, JArr y =>
+      (fix go (x y : list json) {struct x} : bool :=
+         match x, y with
+         | [], [] => true
+         | u :: x', v :: y' => json_eqb u v && go x' y'
+         | _, _ => false
+         end) x y
+  | JObj x, JObj y =>
+      (fix go (x y : list (str * json)) {struct x} : bool :=
+         match x, y with
+         | [], [] => true
+         | u :: x', v :: y' => str_eqb (fst u) (fst v) && json_eqb (snd u) (snd v) && go x' y'
+         | _, _ => false
+         end) x y
+  | _, _ => false
+  end.
+Definition fcontent_eqb (a b : fcontent) : bool :=
+  match a, b with
+  | FText x, FText y => str_eqb x y
+  | FJson x, FJson y => json_eqb x y
+  | _, _ => false
+  end.
+
+Fixpoint str_mem (x : str) (l : list str) : bool :=
+  match l with [] => false | y :: l' => str_eqb y x || str_mem x l' end.
+
+(* an operation took the stand-off files from [before] to [after] (what they should hold) *)
+Definition mark (before after : files) (st : fstate) : fstate :=
+  mkfs (fs_dirty st ++
+        map fst (filter (fun p => match file_get before (fst p) with
+                                  | Some c => negb (fcontent_eqb c (snd p))
+                                  | None => true
+                                  end) after))
+       (fs_disk st).
+
+(* save: the flagged members write their files *)
+Definition flush (current : files) (st : fstate) : fstate :=
+  mkfs [] (fold_left (fun d p => if str_mem (fst p) (fs_dirty st) then file_put d (fst p) (snd p) else d)
+                     current (fs_disk st)).
+
+(* what the disk must hold after a save: every stand-off file of the current store is current *)
+Definition rewrite_all (current : files) (disk : files) : files :=
+  fold_left (fun d p => file_put d (fst p) (snd p)) current disk.
+
+(* a history of modifications and saves over any kind of state: [want] gives the stand-off
+   files the state should have *)
+Inductive sop (X : Type) := SMod (x : X) | SSave.
+Arguments SMod {X} x.
+Arguments SSave {X}.
+Fixpoint save_run {S X} (step : S -> X -> S) (want : S -> files) (ops : list (sop X)) (s : S) (st : fstate)
+  : S * fstate :=
+  match ops with
+  | [] => (s, st)
+  | SSave :: ops' => save_run step want ops' s (flush (want s) st)
+  | SMod x :: ops' => let s' := step s x in save_run step want ops' s' (mark (want s) (want s') st)
+  end.
